@@ -19,6 +19,25 @@ def main():
     ob = Obligation.from_json(spec["obligation"])
     mod = importlib.import_module(ob.module)
     fn = getattr(mod, ob.func)
+    if ob.engine == "K":
+        from vf.kengine.sym import Engine, PathAbort
+        eng = Engine()
+        try:
+            eng.concrete = {k: eval(v, {"inf": float("inf"), "nan": float("nan")}) for k, v in spec["args"].items()}
+        except Exception as e:  # noqa
+            print(json.dumps({"reproduced": None, "outcome": "cannot rebuild arguments: " + repr(e)}))
+            return
+        try:
+            r = fn(eng, *ob.params)
+        except PathAbort:
+            print(json.dumps({"reproduced": False, "outcome": "precondition not met by the counterexample"}))
+            return
+        except BaseException as e:  # noqa
+            print(json.dumps({"reproduced": True, "outcome": "raised " + "".join(
+                traceback.format_exception_only(type(e), e)).strip()[:400]}))
+            return
+        print(json.dumps({"reproduced": r is False, "outcome": "body returned " + repr(r)}))
+        return
     _, names = symbolic_signature(ob.module, ob.func, len(ob.params), ob.sig)
     ns = dict(vars(mod))
     ns.update({"float": float, "inf": float("inf"), "nan": float("nan")})
